@@ -13,6 +13,7 @@ import z3
 from .values import (Cell, Ref, Adt, VecV, MapV, IterV, EnumC, Sym, Opaque, UNINIT, UNIT,
                      Panic, Unsupported, PathInfeasible, clone_val, some, none)
 from .program import strip_generics
+from .symstr import SStr, chars_of
 from . import models
 
 INT_BITS = {'u8': 8, 'i8': 8, 'u16': 16, 'i16': 16, 'u32': 32, 'i32': 32, 'u64': 64, 'i64': 64,
@@ -460,6 +461,14 @@ class Interp:
             return True
         if isinstance(a, str) and isinstance(b, str):
             return a == b
+        if isinstance(a, (str, SStr)) and isinstance(b, (str, SStr)):
+            ca, cb = chars_of(a), chars_of(b)
+            if len(ca) != len(cb):
+                return False
+            for x, y in zip(ca, cb):
+                if not self.decide(self.eq(x, y)):
+                    return False
+            return True
         if isinstance(a, Opaque) or isinstance(b, Opaque):
             if isinstance(a, Opaque) and isinstance(b, Opaque) and a.name == b.name:
                 return True
